@@ -593,6 +593,25 @@ func FaultFired(kind string, format string, args ...any) {
 	Ev("FAULT", kind+" "+format, args...)
 }
 
+// Mark mixes a world-specific feature (input class, generated history, ...)
+// into the run fingerprint used to count distinct runs.
+func Mark(vs ...uint64) {
+	if s := S; s != nil {
+		for _, v := range vs {
+			s.out.Fingerprint = (s.out.Fingerprint ^ v) * 0x100000001b3
+		}
+	}
+}
+
+// MarkBytes is Mark over a byte string.
+func MarkBytes(p []byte) {
+	var h uint64 = 14695981039346656037
+	for _, b := range p {
+		h = (h ^ uint64(b)) * 0x100000001b3
+	}
+	Mark(h)
+}
+
 // Violate records an oracle verdict (the first per property+rule is kept).
 func Violate(prop, rule, sig, format string, args ...any) {
 	s := S
